@@ -205,7 +205,7 @@ def selectors(draw, U, xletters, allow_list, force_nonempty=False):
 @st.composite
 def index_cases(draw, rw, max_dims=4, max_len=3):
     U = draw(gen.universes(min_dims=draw(st.sampled_from([1, 2, 3, 3])), max_dims=max_dims, max_len=max_len, min_len=1))
-    x = draw(gen.arrays(U, modes=("coded",), min_dims=1))
+    x = draw(gen.arrays(U, modes=("coded",), min_dims=1, allow_int=(rw == "read")))
     sel = draw(selectors(U, x["letters"], allow_list=(rw == "write")))
     kinds = {s["kind"] for s in sel.values()}
     options = ["dict_letter", "dict_letter", "dict_name", "dict_mixed"]
